@@ -199,6 +199,38 @@ def run(ctx):
                line=leaks[0].line if leaks else h.line)
     ctx.floor('C19.5', 'workspace env-reading helpers used for a secret key', nh, 1)
 
+    # ---------------------------------------------------------------- C19.6
+    ctx.rule('C19.6', 'the raw configuration document stays inside the loader: in ripd::config the text read from a config layer and the untyped serde_json::Value / Map it parses and merges into (inline API keys and secret header values are in there verbatim, before any typed slot exists for C19.1 to track) reach no file write, serialiser, formatting argument or process output — the only way out is the typed parse into RipConfig.')
+    RAWTY = re.compile(r'serde_json::value::Value|serde_json::map::Map|serde_json::Value|serde_json::Map')
+    nraw = 0
+    nfn6 = 0
+    for p_, g in sorted(P.fns.items()):
+        if not p_.startswith('ripd::config::'):
+            continue
+        rawl = {l_ for l_ in range(len(g.locals)) if RAWTY.search(g.lty(l_) or '')}
+        rawl |= {s_.dest['l'] for s_ in g.sites() if s_.dest and re.search(r'^std::fs::(read_to_string|read)$|^ripd::config::parse_jsonc$|^ripd::config::strip_json', s_.callee or '')}
+        if not rawl:
+            continue
+        nfn6 += 1
+        nraw += len(rawl)
+        ctx.touch(g)
+        out6 = []
+        for s_ in g.sites():
+            c = s_.callee or ''
+            if re.search(r"^core::fmt::rt::Argument::<'_>::new_|^core::fmt::rt::Argument::new_", c) or re.search(r'^serde_json::(ser::to_|value::to_value)|Serialize>::serialize$|ToString>::to_string$', c) \
+                    or re.search(r'^std::io::stdio::_e?print$|^tracing|^log::', c) or site_effects(s_) & {'FsWrite'} or re.search(r'std::io::Write>::write', c):
+                if re.search(r'ToString>::to_string$', c) and not any(RAWTY.search(x) for x in s_.ga):
+                    continue
+                for a in s_.args:
+                    if reads_locals(g, a) & rawl:
+                        out6.append(s_)
+                        break
+        ctx.ob('C19.6', g, 'raw-config-stays-in-loader', not out6,
+               'the raw document (%d local(s)) reaches no write / serialise / format sink here' % len(rawl) if not out6 else
+               'the raw configuration document reaches %s (line %d): inline api keys and secret header values leave the loader verbatim (a cache / diagnostics file, a log line)' % (out6[0].callee.rsplit('::', 1)[-1], out6[0].line),
+               line=out6[0].line if out6 else g.line)
+    ctx.floor('C19.6', 'functions of ripd::config holding the raw document', nfn6, 3)
+
     # ---------------------------------------------------------------- C19.2
     bad = 0
     for p, f in sorted(P.fns.items()):
